@@ -92,6 +92,7 @@ type lexer struct {
 	aliases   []*alias
 	stack     []int
 	arithExpr bool
+	bquote    bool
 	scanned   bool
 	paren     int
 	heredoc   heredoc
@@ -694,7 +695,7 @@ func (l *lexer) lexToken(tok int) action {
 			return l.lexPipeline
 		}
 	case ')', RAE:
-		if l.cmdSubst != 0 && len(l.stack) == 1 {
+		if l.cmdSubst != 0 && len(l.stack) == 1 && (l.cmdSubst != '`' || l.bquote) {
 			l.stack = nil
 			l.emit(tok)
 			break
@@ -1031,6 +1032,7 @@ func (l *lexer) scanRawToken() (tok int) {
 					return WORD
 				}
 				if len(l.stack) != 0 {
+					l.bquote = true
 					return ')'
 				}
 				return '('
@@ -1594,6 +1596,11 @@ func (l *lexer) scanCmdSubst(r rune) bool {
 				}
 			}
 			l.mu.Unlock()
+			break
+		}
+		if r == '`' && !ll.bquote {
+			// closed by ')', not by a backquote
+			l.error(left, "syntax error: reached EOF while looking for matching '`'")
 			break
 		}
 		// apply changes
